@@ -4,9 +4,12 @@
   links stored on both ends, clock or project start not before 1970-01-01), the encoding clause when every clock
   reading lies on a day before the project start day (finding KF-S6); the WBS-order clause is proved for every WBS
   that is a forest with consistent parent pointers and symmetric links (what C01 gives for reachable graphs); the
-  removal clause (balancing off) rests on the correspondence stream only.
+  removal clause (balancing off) is proved for tasks that take part in no dependency (`C08_removal_free_partial`: their
+  dates are a function of their own data, their calendar, the project start and the clock) and rests on the
+  correspondence stream for tasks with prerequisites (whose dates legitimately depend on those prerequisites).
 -/
 import PjVerif.Lemmas.SchedC08
+import PjVerif.Lemmas.SchedC08Removal
 import PjVerif.Props.Witness
 namespace Pj
 
@@ -40,6 +43,28 @@ theorem C08_order (env : Env) (f0 : Uid → Fields) (res0 : List (Option Nat × 
     (hf : env.flagsOK) (hl : env.linksSym) (hch : env.childrenOK) (hn : env.membersNodup)
     (h : forwardCalc env f0 res0 = .ok o) : c08Order env o = true := by
   exact C08.order_holds env f0 res0 o hf hl hch hn h
+
+/-- PARTIAL (tasks without prerequisites): with balancing off the dates, estimate, spent and (day, units) usage rows of
+    a leaf that takes part in no dependency - neither itself nor through an ancestor - do not change when other tasks
+    are removed, added or re-ordered: `env'` is any other WBS, scheduled with the same project start, (constant) clock
+    and default estimate, in which a task `t'` carries the same own data as `t` and whose resource resolves to the same
+    calendar -/
+theorem C08_removal_free_partial (env env' : Env) (f0 f0' : Uid → Fields) (res0 res0' : List (Option Nat × Cal))
+    (o o' : Output) (t t' : Uid)
+    (hf : env.flagsOK) (hf' : env'.flagsOK) (hl : env.linksSym) (hl' : env'.linksSym)
+    (hp : env.parentsOK) (hp' : env'.parentsOK) (hch : env.childrenOK) (hch' : env'.childrenOK)
+    (hn : env.membersNodup) (hn' : env'.membersNodup)
+    (hb : env.balance = false) (hb' : env'.balance = false)
+    (hclk : ∀ k, env.clock k = env.clock 0) (hclk' : ∀ k, env'.clock k = env.clock 0)
+    (hbound : env'.bound = env.bound) (hde : env'.defaultEst = env.defaultEst)
+    (ht : t ∈ memberList env) (ht' : t' ∈ memberList env')
+    (hfree : freeLeaf env t = true) (hfree' : freeLeaf env' t' = true)
+    (hown : C08R.SameOwn env env' f0 f0' t t')
+    (hcal : C08R.calOf res0 (env.info t).resource = C08R.calOf res0' (env'.info t').resource)
+    (h : forwardCalc env f0 res0 = .ok o) (h' : forwardCalc env' f0' res0' = .ok o') :
+    o.f t = o'.f t' ∧ C08R.dayUnits o.rows t = C08R.dayUnits o'.rows t' :=
+  C08R.removal_free env env' f0 f0' res0 res0' o o' t t' hf hf' hl hl' hp hp' hch hch' hn hn' hb hb' hclk hclk'
+    hbound hde ht ht' hfree hfree' hown hcal h h'
 
 /-- the full no-idle statement fails on the model as on the code (findings/KF-S3-C08.json) -/
 theorem C08_noIdle_full_fails :
